@@ -77,4 +77,35 @@ example :
       c.threads.map (·.results) = [[.ok ⟨1, some "a", some 6, some 0⟩], [.aborted]] := by
   decide
 
+/-- **reading the totals outside the transaction loses increments**: a caller that took its snapshot with the
+getter (total 5), was descheduled while another ENTER was counted (6), and then writes the event computed from its
+snapshot: both calls return successfully, the compare-and-commit does not object (nothing changed since the
+transaction's own read), and the stored total is 6 — not the 7 that two successful ENTER calls make.  So
+`C20_enterleave_conc_counters` rests on the totals being computed from the value read INSIDE `Set`. -/
+theorem C20_enterleave_conc_snapshot_variant_fails :
+    ∃ (init : Event) (sched : List Ev),
+      let c := Cfg.run ⟨init, 0, [[snapshotEventCall init ⟨1, some "a", none, none⟩],
+        [opCall (.event ⟨1, some "b", none, none⟩)]].map Thread.ofCalls⟩ sched
+      init.enterTotal = some 5 ∧ c.oks = 2 ∧ c.store.enterTotal = some 6 ∧
+        ¬ ∃ ops : List Op, ops.length = c.oks ∧ (∀ o ∈ ops, ∃ ev, o = .event ev ∧ ev.direction = 1 ∧ ev.enterTotal = none) ∧
+          c.store = run init ops :=
+  ⟨⟨0, none, some 5, some 0⟩, [.step 1, .step 1, .step 1, .step 0, .step 0, .step 0], by
+    refine ⟨rfl, by decide, by decide, ?_⟩
+    rintro ⟨ops, hlen, hops, hrun⟩
+    have h2 : ops.length = 2 := by rw [hlen]; decide
+    match ops, h2 with
+    | [o1, o2], _ =>
+      obtain ⟨e1, rfl, hd1, hn1⟩ := hops o1 (by simp)
+      obtain ⟨e2, rfl, hd2, hn2⟩ := hops o2 (by simp)
+      have hst : (Cfg.run ⟨(⟨0, none, some 5, some 0⟩ : Event), 0, [[snapshotEventCall ⟨0, none, some 5, some 0⟩ ⟨1, some "a", none, none⟩],
+        [opCall (.event ⟨1, some "b", none, none⟩)]].map Thread.ofCalls⟩
+          [.step 1, .step 1, .step 1, .step 0, .step 0, .step 0]).store.enterTotal = some 6 := by decide
+      rw [hrun] at hst
+      obtain ⟨d1, o1, en1, l1⟩ := e1
+      obtain ⟨d2, o2, en2, l2⟩ := e2
+      simp only at hd1 hn1 hd2 hn2
+      subst hd1 hn1 hd2 hn2
+      revert hst
+      simp [run, step, create, merge, adjustTotal, bump, maxInt32]⟩
+
 end ScVerif.C20.EnterLeave
